@@ -16,6 +16,9 @@ package v2
 // the failure flag is set exactly when some result is an error.
 //@ func v2.ProcessBulk
 //@   requires len(calls) == len(callIKs)
+// the handler continues past a failure only when the request says continueOnFailure=true (or 1): the flag is the value of
+// the parameter, not its presence
+//@   requires in v2.bulkHandler: continueOnFailure <==> (lib("strings.ToLower", qparam(local(r), "continueOnFailure")) == "true" || lib("strings.ToLower", qparam(local(r), "continueOnFailure")) == "1") // C18
 //@   ensures err == nil
 // every success result stands for one backend call; an element is executed at most once; an unknown action never reaches the backend.
 // That each call carries the action and idempotency key of the element being processed is a precondition of the four
@@ -60,3 +63,10 @@ package v2
 //@ func v2.postTransaction
 //@   requires r != nil
 //@   property C09
+
+// the HTTP entry of a bulk: decodes the body and runs it with the flag the request carries (see ProcessBulk's scoped requires)
+//@ func v2.bulkHandler
+//@   requires r != nil && r.URL != nil
+// (ghost bookkeeping of the backend calls: one key per call, see backend.contracts)
+//@   assumes len(calls) == len(callIKs)
+//@   property C18
